@@ -42,7 +42,7 @@ def configs(tier, seed):
             for t in ("cartesian", "spherical"):
                 if tier == "quick" and (l + K + (t == "spherical")) % 2:
                     continue
-                if K * M >= 6:
+                if K * M >= 6 or (tier != "quick" and K * M <= 2 and l <= 2):  # large alphabets, and the depth-3 searches
                     # shard the breadth-first search by the class of the first rewrite (same state set overall)
                     for br in range(4):
                         out.append({"kind": "bfs", "l": l, "K": K, "M": M, "t": t, "tier": tier, "branch": br})
